@@ -3,4 +3,7 @@ let () =
   match Array.to_list Sys.argv with
   | [_; "chk-topics"; path] -> Chk_topics.run path
   | [_; "chk-codec"; path] -> Chk_codec.run path
+  | [_; "run-gw"; hist; out] -> Gw_io.run_model hist out
+  | [_; "cmp-gw"; hist; impl] -> Cmp_gw.run hist impl
+  | [_; "gen-gw"; seed; n; out] -> Gen_gw.run (int_of_string seed) (int_of_string n) out
   | _ -> prerr_endline "usage: driver chk-topics <file>"; exit 2
